@@ -5,7 +5,7 @@ import common, gen_core
 from common import Inconclusive, log
 
 BINARIES = ("worker",)
-PLANS = {"C12": None, "C17": None}
+PLANS = {"C12": None, "C17": None, "C02": None}
 LEVEL = "model_checking"
 DEFAULT_ASSUMPTIONS = ["the STEP harness, fake nodes log raw bytes of every command they receive",
                        "TLC evaluates the TLA+ grammar correctly", "a strict Redis request grammar (canonical lengths, n >= 1, CRLF) is what a Redis server accepts"]
@@ -236,8 +236,121 @@ def run_c17(tier, seed):
         shutil.rmtree(wd, ignore_errors=True)
 
 
+# ---- C02 -----------------------------------------------------------------------------------------
+
+def resp_bulk(b):
+    return b"$%d\r\n%s\r\n" % (len(b), b)
+
+
+def reply_shapes(rng, quick):
+    big = bytes(rng.randrange(256) for _ in range(5000))
+    huge = bytes((i * 7 + 3) % 256 for i in range(100000))
+    shapes = [b"+OK\r\n", b"+QUEUED some status text\r\n", b"-ERR value is not an integer or out of range\r\n",
+              b"-WRONGTYPE Operation against a key holding the wrong kind of value\r\n", b"-LOADING Redis is loading\r\n",
+              b":0\r\n", b":-123\r\n", b":9223372036854775807\r\n", b"$0\r\n\r\n", b"$-1\r\n", b"*-1\r\n", b"*0\r\n",
+              resp_bulk(b"a\r\nb"), resp_bulk(bytes(range(256))), resp_bulk(b"*2\r\n$3\r\nfoo\r\n"),
+              b"*3\r\n" + resp_bulk(b"x") + b":5\r\n" + b"$-1\r\n",
+              b"*2\r\n*2\r\n*1\r\n" + resp_bulk(b"deep") + b"+OK\r\n" + b"*0\r\n",
+              b"*2\r\n$1\r\n0\r\n*2\r\n" + resp_bulk(b"k1") + resp_bulk(b"\x00\xff"),
+              resp_bulk(big), resp_bulk(huge)]
+    return shapes
+
+
+def arg_shapes(quick):
+    shapes = ["hex:", "hex:" + bytes(range(256)).hex(), "hex:" + b"a\r\nb".hex(), "hex:" + b"$5\r\n*2\r\n".hex(), "hex:" + b"\r\n".hex(),
+              "plainvalue", "rnd:5000:1", "rnd:20000:2", "rnd:70000:3", "rnd:300000:4"]
+    if not quick:
+        shapes += ["rnd:1500000:5", "rnd:4000000:6", "rnd:16383:7", "rnd:16384:8", "rnd:65536:9"]
+    return shapes
+
+
+def run_c02(tier, seed):
+    wd = common.scratch()
+    try:
+        q = tier == "quick"
+        rng = random.Random("c02/%s" % seed)
+        st = lambda **kw: dict({"op": "", "c": "", "n": "", "reqs": [], "hex": "", "kind": "", "cls": "", "to": "", "count": 0, "src": "", "text": "", "cuts": []}, **kw)
+        req = lambda args, sl=("A",): {"k": "cmd", "slots": list(sl), "args": list(args), "dups": [-1] * len(sl)}
+        step = lambda stim, settle=True: {"stim": stim, "settle": settle, "noIter": False}
+        okdrain = step([st(op="answer", n=n, kind="ok", count=4) for n in ("n1", "n2", "n3")])
+        replies = reply_shapes(rng, q)
+        args = arg_shapes(q)
+        # single-key commands of the table with one free-form argument position
+        forms = [(["GET", "@0"], None), (["SET", "@0", "$"], 2), (["set", "@0", "$"], 2), (["SeT", "@0", "$"], 2), (["APPEND", "@0", "$"], 2),
+                 (["GETSET", "@0", "$"], 2), (["SETEX", "@0", "100", "$"], 3), (["HSET", "@0", "$", "v"], 2), (["HSET", "@0", "f", "$"], 3),
+                 (["LPUSH", "@0", "$", "$"], 2), (["RPUSH", "@0", "a", "$", "b"], 3), (["SADD", "@0", "$"], 2), (["ZADD", "@0", "1", "$"], 3),
+                 (["HGET", "@0", "$"], 2), (["SISMEMBER", "@0", "$"], 2), (["EVAL", "$", "1", "@0", "x"], 1), (["SETRANGE", "@0", "5", "$"], 3),
+                 (["PFADD", "@0", "$", "z"], 2), (["ZRANGEBYSCORE", "@0", "-inf", "+inf"], None), (["EXPIRE", "@0", "10"], None),
+                 (["TTL", "@0"], None), (["HGETALL", "@0"], None), (["LRANGE", "@0", "0", "-1"], None), (["RESTORE", "@0", "0", "$"], 3)]
+        scs = []
+        k = 0
+        for form, pos in forms:
+            shapes = args if pos is not None else [None]
+            if q and pos is not None:
+                shapes = [args[(k + x) % len(args)] for x in range(3)] + (["rnd:70000:3"] if k % 5 == 0 else [])
+            for a in shapes:
+                k += 1
+                r = req([a if x == "$" else x for x in form])
+                rep = replies[k % len(replies)]
+                scs.append({"id": "c02-%s-%d" % (form[0], k), "role": "", "steps": [
+                    step([st(op="send", c="c1", reqs=[r])]), step([st(op="answer", n="n1", kind="raw", hex=rep.hex())]), okdrain]})
+        # every reply shape behind a plain GET, whole and cut
+        for j, rep in enumerate(replies):
+            scs.append({"id": "c02-reply-%d" % j, "role": "", "steps": [
+                step([st(op="send", c="c1", reqs=[req(["GET", "@0"])], cuts=[5] if j % 2 else [])]),
+                step([st(op="answer", n="n1", kind="raw", hex=rep.hex())]), okdrain]})
+        # concurrency: big requests of two clients read in the same iteration; pipelined big requests; big request redirected
+        big = lambda sd: req(["SET", "@0", "rnd:20000:%d" % sd])
+        scs.append({"id": "c02-two-clients", "role": "", "steps": [
+            step([st(op="send", c="c1", reqs=[big(11)]), st(op="send", c="c2", reqs=[big(12)])]), okdrain]})
+        scs.append({"id": "c02-three-clients", "role": "", "steps": [
+            step([st(op="send", c="c1", reqs=[big(13)]), st(op="send", c="c2", reqs=[req(["SET", "@0", "rnd:30000:14"], ("B",))]),
+                  st(op="send", c="c3", reqs=[big(15)])]), okdrain]})
+        scs.append({"id": "c02-pipelined-big", "role": "", "steps": [
+            step([st(op="send", c="c1", reqs=[big(16), big(17), req(["GET", "@0"]), big(18)])]), okdrain, okdrain]})
+        scs.append({"id": "c02-big-redirect", "role": "", "steps": [
+            step([st(op="send", c="c1", reqs=[big(19)])]), step([st(op="send", c="c2", reqs=[big(20)]), st(op="answer", n="n1", kind="moved", to="n2")]),
+            okdrain, okdrain]})
+        scs.append({"id": "c02-big-ask", "role": "", "steps": [
+            step([st(op="send", c="c1", reqs=[big(21)])]), step([st(op="send", c="c2", reqs=[req(["SET", "@0", "rnd:17000:22"], ("C",))]), st(op="answer", n="n1", kind="ask", to="n3")]),
+            okdrain, okdrain]})
+        # a slow reader: the client does not read while a large reply arrives, then drains
+        for sz in ([400000] if q else [400000, 3000000]):
+            hugerep = resp_bulk(bytes((i * 13 + 5) % 256 for i in range(sz)))
+            scs.append({"id": "c02-slow-reader-%d" % sz, "role": "", "steps": [
+                step([st(op="pause", c="c1"), st(op="send", c="c1", reqs=[req(["GET", "@0"]), req(["GET", "@0"], ("B",))])]),
+                step([st(op="answer", n="n1", kind="raw", hex=hugerep.hex()), st(op="answer", n="n2", kind="raw", hex=resp_bulk(b"tail").hex())]),
+                step([st(op="sleep", count=30)]), step([st(op="resume", c="c1")]), step([]), okdrain]})
+        cfgs = [({"masters": 3, "mode": "step", "rawLog": True}, scs, "c02")]
+        # the same with a backend password and replica reads (AUTH / READONLY handshakes on the backend connections)
+        sub = [s for x, s in enumerate(scs) if x % (4 if q else 2) == 0]
+        cfgs.append(({"masters": 3, "replicas": 1, "password": "pw", "mode": "step", "rawLog": True}, sub, "c02pw"))
+        viol, other = [], {}
+        tot = {"states": 0, "transitions": 0, "traces": 0, "events": 0, "crashes": 0, "unrealised": 0, "harness_errors": []}
+        for cfg, ss, tag in cfgs:
+            r = common.replay_and_validate(cfg, ss, wd, tag, spec="RawTrace", cfgfile="RawTrace.cfg", par=8)
+            for kk in ("states", "transitions", "traces", "events", "unrealised"):
+                tot[kk] += r[kk]
+            tot["crashes"] += r["crashes"] + r["dead"]
+            tot["harness_errors"] += r["harness_errors"]
+            for v in r["viol"]:
+                if v["prop"] == "DEAD" or (v["prop"] == "C02" and v["code"] in ("request-bytes-altered", "reply-bytes-altered", "request-delivered-twice", "request-never-reached-a-backend")):
+                    viol.append(v)
+                else:
+                    other[v["prop"] + ":" + v["code"]] = other.get(v["prop"] + ":" + v["code"], 0) + 1
+        cov = dict(tot, nontrivial=len(scs), other=other,
+                   rule="single-key commands of the table x argument shapes (empty, all 256 byte values, CR/LF, RESP look-alikes, 5KB..300KB [thorough: 4MB]) x reply "
+                        "shapes (status, error, integers, empty/binary/null bulk, null/empty/nested arrays, 5KB and 100KB bulks), whole and cut; two and three clients "
+                        "sending large requests into the same iteration, pipelined large requests, large requests re-sent after MOVED/ASK, a slow reader; again "
+                        "with backend password and replica reads; TLC compares bytes (<= 4096) with Resp!LowerName, digests above",
+                   samples=[scs[0], scs[-1]])
+        return viol, cov
+    finally:
+        shutil.rmtree(wd, ignore_errors=True)
+
+
 def run(pid, tier, seed):
-    return {"C12": run_c12, "C17": run_c17}[pid](tier, seed)
+    return {"C12": run_c12, "C17": run_c17, "C02": run_c02}[pid](tier, seed)
 
 
 def replay(pid, payload):
